@@ -9,7 +9,7 @@ def C(category, text, design_ref, note, technique):
     return dict(category=category, text=text, design_ref=design_ref, note=note, technique=technique)
 
 GLUE = ("Trusted: Coq kernel (vm_compute in Examples and tie lemmas; no native_compute), extraction (ExtrOcamlBasic only), "
-        "ocaml/driver.ml, harness/src/*.rs, tools/*.py incl. the source-to-Coq translators srcconsts.py / srccodec.py / srcshape.py; "
+        "ocaml/driver.ml, harness/src/*.rs, tools/*.py incl. the source-to-Coq translators srcconsts.py / srccodec.py / srcorder.py / srcfns.py / srchash.py / srcshape.py; "
         "axioms: none (Print Assumptions of every pinned theorem is closed; coqchk -o in the thorough tier); crypto primitives are "
         "parameters of the model, at run time both sides use the blake2/crc32fast/ed25519-dalek crates; dependency crates "
         "(flat-tree, compact-encoding, random-access-*, moka, async-broadcast, async-lock) are modelled, not verified. ")
